@@ -28,7 +28,7 @@ def budget(tier):
     return {"runs": 120000, "wall": 1200, "chunk": 10}
 
 
-DIRS = ["gff-version 3", "sequence-region chr1 1 1000", "species x", "#", "date 2020", "feature-ontology so.obo", "x y  z ", "", "0"]
+DIRS = ["gff-version 3", "sequence-region chr1 1 1000", "species x", "#", "date 2020", "feature-ontology so.obo", "x y  z ", "", "0", "note a\u2028b", "form\x0cfeed", "nel\x85here"]
 
 
 def gen(rng, tier):
@@ -44,7 +44,7 @@ def gen(rng, tier):
     items = [["f", G.render_line(f, d)] for f in feats]
     n_dir = rng.choice([0, 1, 1, 2, 3, 4])
     extras = [["d", "##" + rng.choice(DIRS)] for _ in range(n_dir)]
-    extras += [["c", "#" + rng.choice([" a comment", "comment", " chr1\tx\tgene\t1\t2\t.\t+\t.\tID=zz"])] for _ in range(rng.choice([0, 0, 1, 2]))]
+    extras += [["c", "#" + rng.choice([" a comment", "comment", " chr1\tx\tgene\t1\t2\t.\t+\t.\tID=zz", " odd\u2028chr1\tx\tgene\t1\t2\t.\t+\t.\tID=yy"])] for _ in range(rng.choice([0, 0, 1, 2]))]
     extras += [["b", ""] for _ in range(rng.choice([0, 0, 1, 2]))]
     where = rng.choice(["head", "anywhere", "anywhere", "tail"])
     for e in extras:
